@@ -239,6 +239,18 @@ pub struct StageResult {
     pub slow_cases: u64,
 }
 
+/// Strips machine-specific prefixes from a panic location (cargo registry, rustc source hash).
+pub fn norm_file(f: &str) -> String {
+    if let Some(p) = f.find("/registry/src/") {
+        let rest = &f[p + "/registry/src/".len()..];
+        return rest.split_once('/').map(|x| x.1.to_string()).unwrap_or_else(|| rest.to_string());
+    }
+    if let Some(rest) = f.strip_prefix("/rustc/") {
+        return rest.split_once('/').map(|x| x.1.to_string()).unwrap_or_else(|| rest.to_string());
+    }
+    f.to_string()
+}
+
 fn slow_ms() -> u64 {
     static V: std::sync::OnceLock<u64> = std::sync::OnceLock::new();
     *V.get_or_init(|| std::env::var("C15_SLOW").ok().and_then(|s| s.parse().ok()).unwrap_or(0))
@@ -316,6 +328,7 @@ fn worker_loop<S: Stages>(st: &S, slot: &Slot, log: &Log, stage: u32, start: u64
                 slot.counters[C_PANIC].fetch_add(1, Relaxed);
                 let (decoded, _, payload) = st.describe(stage, case);
                 let overflow = if msg.contains("overflow") && msg.starts_with("attempt to") { " overflow-check=yes" } else { "" };
+                let file = norm_file(&file);
                 let f = Finding {
                     fingerprint: format!("{} outcome=panic{overflow} msg={} file={}", st.fp_prefix(stage, case), vmc::normalise_msg(&msg), file),
                     decoded,
@@ -673,7 +686,7 @@ pub fn run_stages<S: Stages>(st: &'static S, workers: usize, dir: &std::path::Pa
                                                             let (decoded, _, payload) = st.describe(stg, cur);
                                                             let msg = unesc(msg);
                                                             extra.push(Finding {
-                                                                fingerprint: format!("{} outcome=panic msg={} file={}", st.fp_prefix(stg, cur), vmc::normalise_msg(&msg), unesc(file)),
+                                                                fingerprint: format!("{} outcome=panic msg={} file={}", st.fp_prefix(stg, cur), vmc::normalise_msg(&msg), norm_file(&unesc(file))),
                                                                 decoded,
                                                                 expected: "Ok or io::Error".into(),
                                                                 observed: format!("panic: {msg}"),
